@@ -38,7 +38,7 @@ def run(run):
     run.stream("c18", 30000 if q else 400000)
     if not q:
         for k in range(1, 5):
-            run.stream("c18", 300000, seed_offset=k)
+            run.stream("c18", 250000, seed_offset=k)
         run.leanchecker(["Csvq.Props.C18"])
     return run.finish(
         level="proof",
